@@ -25,4 +25,48 @@ CLAIMED = {
         technique="TLA+ lock-step product model checked by TLC; twin-run trace validation by TLC; twin graph walk",
         ref="DESIGN.md section 4 C14"),
 }
+CLAIMED.update({
+    "C01": dict(
+        text=("TLC proves on the model (MC_SmfRoundTrip, every bounded API history, both running-status options, metric and SMPTE divisions) that "
+              "Decode(Encode(Canon f)) = Canon f; the real library is bound to it by trace validation: random API histories are executed, written and read back by the "
+              "real code and TLC replays each history through Build/Canon and compares format, division, track count and every (delta, message bytes)."),
+        note="Trusted: TLC, SmfWrite!Build/Canon as the meaning of an API history (DESIGN C.1), harness recording. Domain exclusions listed in evidence assumptions.",
+        technique="TLA+ model of builder/writer/reader; TLC model check of the round-trip theorem; TLC trace validation of recorded write/read-back executions",
+        ref="DESIGN.md section 4 C01"),
+    "C02": dict(
+        text=("The independent decoder IS the TLA+ module SmfParse. TLC checks a separately written generator grammar against it (MC_SmfGen) and then judges the real "
+              "reader: every complete file of TLC's own state space and thousands of byte-level generated valid files are read by the real code and compared with "
+              "Decode(bytes) evaluated by TLC."),
+        note="Trusted: TLC, SmfParse as the reading of SMF 1.0. The Go byte generator is only an input source (a file the spec rejects aborts with exit 2).",
+        technique="TLA+ decoder specification as oracle; TLC-generated files replayed into the real reader; TLC trace validation of byte-level generated files",
+        ref="DESIGN.md section 4 C02"),
+    "C03": dict(
+        text=("The strict parser is SmfParse!Decode with its canon flag, evaluated by TLC on the bytes the real writer produced for random API histories; it must "
+              "recover Canon(history); size, determinism checked per record. VLQ: TLC checks inverse/canonical/uniqueness on the model (MC_Vlq); the real writer/reader are "
+              "swept over delta values through the public API (quick: boundaries+65k random; thorough: all 2^28) with a transcribed canonical-form invariant that TLC "
+              "re-validates on samples every run."),
+        note="Trusted: TLC, SmfParse/Vlq modules, the 10-line Go VLQ cutter + vlqCanonical transcription (validated against TLC on >=16k samples per run).",
+        technique="TLA+ strict parser evaluated by TLC on real writer output; exhaustive VLQ sweep against a TLC-validated invariant",
+        ref="DESIGN.md section 4 C03"),
+    "C05": dict(
+        text=("Every proper prefix of valid files and thousands of arbitrary/mutated byte strings are read by the real reader under recover, watchdog and allocation "
+              "measurement; TLC decodes the original with the specification and checks each outcome is an error or an event-for-event prefix, never a panic/timeout, "
+              "and that memory stays proportional to the input."),
+        note="Trusted: TLC, SmfParse, harness measurement (recover, 10 s watchdog, TotalAlloc). Memory bound is a generous constant (1 KiB/byte + 8 MiB).",
+        technique="TLC trace validation of truncation-at-every-offset and mutation experiments against the TLA+ decoder",
+        ref="DESIGN.md section 4 C05"),
+    "C09": dict(
+        text=("The specification's decoder is a function of the bytes alone (no notion of fragments); the real reader is run under every single split point and a set "
+              "of fragmenting readers and each result is compared with the in-memory baseline; TLC judges the recorded runs."),
+        note="Judges only schedule-independence (relation between runs of the real code); content of the baseline is C02/C05.",
+        technique="schedule enumeration on the real reader, records judged by the TLC trace spec",
+        ref="DESIGN.md section 4 C09"),
+    "C10": dict(
+        text=("For every byte offset of the output a failing destination (two failure modes) and for every byte offset of the input a sticky read error are injected "
+              "into the real WriteTo/ReadFrom; TLC judges each record: fault before the end => error; no fault => nil and exact size; the number of bytes a reader "
+              "needs is computed by the TLA+ decoder."),
+        note="Trusted: TLC, SmfParse (end of last track), harness fault injectors.",
+        technique="fault enumeration at every offset, records judged by the TLC trace spec with the TLA+ decoder",
+        ref="DESIGN.md section 4 C10"),
+})
 NOT_YET = {}
